@@ -13,7 +13,7 @@ def plan(tier, seed):
     conds.append(Cond("u2-vacuity", "harness/c18.py", "u2", env={"U2_PREFIX": 1}, timeout=60, vacuity=True))
     if q:
         conds += t1_conds("c18", "full", 2, 8, timeout=200)
-        conds += t2_conds("c18", 3, timeout=240)
+        conds += t2_conds("c18", 3, timeout=240, split=3)
         b3 = "full vocabulary N=2; every command K=3"
     else:
         conds += t1_conds("c18", "full", 3, 44, timeout=1500)
@@ -21,7 +21,12 @@ def plan(tier, seed):
         conds += t2_conds("c18", 4, timeout=2400, split=6)
         b3 = "full vocabulary N=3 (LF and CRLF); every command K=4"
     conds += t4_conds("c18", timeout=280 if q else 1500, quick=q)
-    meta = dict(functions=["sievelib.parser.Lexer.curlineno", "sievelib.parser.Lexer.curcolno", "sievelib.parser.Lexer.scan",
+    wit = []
+    for text in (b"a\rb", b"\r\rxy", b"a\x0bb", b"a\x0cb\n", b"\x1cab", b"a\xc2\x85b", b"\n\r\nx", b"ab\r"):
+        for pos in range(len(text) + 1):
+            wit.append(dict(file="harness/c18.py", f="u1_arith", args={"text": {"__bytes__": text.hex()}, "pos": pos},
+                            env={"C18_MAXLEN": 6}))
+    meta = dict(witnesses=wit, functions=["sievelib.parser.Lexer.curlineno", "sievelib.parser.Lexer.curcolno", "sievelib.parser.Lexer.scan",
                            "sievelib.parser.Parser.parse (error / error_pos assembly)"] + PARSER_FUNCS[2:],
                 bounds={"U1": "every byte string of length <= %d and every position" % (4 if q else 6),
                         "U2": "%d valid multi-line prefixes (comments, multi-byte text) x 0-3 blank lines x 0-3 leading spaces x "
